@@ -289,6 +289,31 @@ def closed_forms(repo, rep):
                 rep.ok("R-C01-5", f"{fi.file}:{n.lineno} {fi.short}", unparse(n), f"1.56 * f^{power}")
             else:
                 rep.fail("R-C01-5", fi.file, n.lineno, fi.qualname, unparse(n)[:100], f"the deep-water closed form must be exactly 1.56 * f^{power} (found 1.56 * {sym}^{exp})")
+        if not found and fi.name in ("uss_x", "uss_y"):
+            # one Stokes-drift component written through the other:  uss_y(theta) = uss_x(theta - 90)   [sin(a) = cos(a - 90)]
+            sib = "uss_x" if fi.name == "uss_y" else "uss_y"
+            from ..astutil import bound_args, signed_terms
+            calls = [c for c in ast.walk(fi.node) if isinstance(c, ast.Call) and call_name(c) in (f"self.{sib}", f"self._obj.spec.{sib}")]
+            if len(calls) == 1:
+                b = bound_args(repo, fi, calls[0]) or {}
+                th = b.get("theta")
+                want = -90 if fi.name == "uss_y" else 90          # required  theta' - theta  (mod 360)
+                okdel = False
+                if th is not None:
+                    terms = signed_terms(th)
+                    coef = sum(sg for sg, t in terms if isinstance(t, ast.Name) and t.id == "theta")
+                    const = sum(sg * repo.const(fi.module, t) for sg, t in terms if isinstance(repo.const(fi.module, t), (int, float)))
+                    rest = [t for sg, t in terms if not (isinstance(t, ast.Name) and t.id == "theta") and not isinstance(repo.const(fi.module, t), (int, float))]
+                    okdel = coef == 1 and not rest and (const - want) % 360 == 0
+                found = True
+                sites.append(fi)
+                if okdel and unparse(b.get("depth")) == "depth":
+                    rep.ok("R-C01-5", f"{fi.file}:{calls[0].lineno} {fi.short}", unparse(calls[0])[:80], f"{fi.name}(theta) = {sib}(theta {want:+d}): the same integral projected on the other axis")
+                else:
+                    rep.fail("R-C01-5", fi.file, calls[0].lineno, fi.qualname, unparse(calls[0])[:100],
+                             f"{fi.name} is obtained from {sib} with theta -> {unparse(th) if th is not None else '?'}: sin(180 + theta - dir) equals "
+                             f"cos(180 + theta' - dir) only for theta' = theta {want:+d} (mod 360); any other offset is another projection (right only at the "
+                             "default theta)")
         if not found:
             rep.fail("R-C01-5", fi.file, fi.node.lineno, fi.qualname, "deep-water branch", f"the deep-water closed form 1.56 * f^{power} is missing")
     rep.floor("R-C01-5", "deep-water closed-form sites", len(sites), 6)
